@@ -1,6 +1,7 @@
 import FcpptModel.Spec.C19
 import FcpptProofs.C19.Hist
 import FcpptProofs.C19.Conc
+import FcpptProofs.C19.Api
 /-!
 # C19 — property theorems (sequential part)
 
@@ -138,6 +139,153 @@ example : ((run (some 3) exampleOps).objs.map Obj.node) = [["a", "b"], ["c"], ["
 example : specText (some (fun s => "T<" ++ s ++ ">")) (some (defaultLevel 4)) ["a", "", "d"] "m" = "T<a: d: error: m\n>" := by decide
 
 
+/-! ## Consequences on the level of single calls -/
+
+theorem History.Valid.snoc {root : Level} {ops : List Op} (hv : History.Valid root ops) {op : Op} (ho : op.Valid) :
+    History.Valid root (ops ++ [op]) := by
+  refine ⟨hv.1, ?_⟩
+  intro o hmem
+  rcases List.mem_append.mp hmem with h | h
+  · exact hv.2 o h
+  · simp at h; subst h; exact ho
+
+/-- **`set` overrides its whole subtree**: after `set L v`, whatever happened before (earlier sets on `L`, on deeper
+locations, objects created in any order, the same `set` already made), every location below `L` — existing or not —
+reports `v`. -/
+theorem set_overrides_subtree (root : Level) (ops : List Op) (hv : History.Valid root ops) (L : Loc) (v : Level)
+    (hl : Level.Valid v) (loc : Loc) (hp : L.isPrefixOf loc = true) :
+    ctxGet (run root (ops ++ [.set L v])).tree loc = v := by
+  rw [get_eq_latest_prefix root _ (hv.snoc (op := .set L v) hl), setsOf_append]
+  show levelOf root (setsOf ops ++ [(L, v)]) loc = v
+  rw [levelOf_snoc, if_pos hp]
+
+/-- **`set` touches nothing else**: locations that `L` is not a prefix of keep their level. -/
+theorem set_leaves_rest_alone (root : Level) (ops : List Op) (hv : History.Valid root ops) (L : Loc) (v : Level)
+    (hl : Level.Valid v) (loc : Loc) (hp : L.isPrefixOf loc = false) :
+    ctxGet (run root (ops ++ [.set L v])).tree loc = ctxGet (run root ops).tree loc := by
+  rw [get_eq_latest_prefix root _ (hv.snoc (op := .set L v) hl), get_eq_latest_prefix root _ hv, setsOf_append]
+  show levelOf root (setsOf ops ++ [(L, v)]) loc = _
+  rw [levelOf_snoc, hp]; simp
+
+/-- **creating a log object changes no level** — whichever constructor, whether or not nodes are created for it. -/
+theorem creation_preserves_levels (root : Level) (ops : List Op) (hv : History.Valid root ops) (c : Op)
+    (hc : ∀ L v, c ≠ .set L v) (loc : Loc) :
+    ctxGet (run root (ops ++ [c])).tree loc = ctxGet (run root ops).tree loc := by
+  have hcv : c.Valid := by cases c <;> simp [Op.Valid] <;> exact absurd rfl (hc _ _)
+  have hs : setsOf [c] = [] := by cases c <;> simp [setsOf] <;> exact absurd rfl (hc _ _)
+  rw [get_eq_latest_prefix root _ (hv.snoc hcv), get_eq_latest_prefix root _ hv, setsOf_append, hs, List.append_nil]
+
+/-- `enabled` is upward closed in the message level -/
+theorem enabled_monotone (cur : Level) (l l' : Nat) (h : enabledAt cur l = true) (hle : l ≤ l') : enabledAt cur l' = true := by
+  cases cur with
+  | none => simp [enabledAt] at h
+  | some e => simp [enabledAt] at h ⊢; omega
+
+/-- **`FCPPT_LOG_<LEVEL>`** writes exactly what `object::log` writes, and evaluates its message expression exactly when
+something is written (once), never otherwise. -/
+theorem macro_evaluates_iff_emitted (t : Tree) (streams : Nat → OptFn) (o : Obj) (l : Nat) (msg : String) :
+    logMacro t streams o l msg = (objLog t streams o l msg).map (fun r => (r, if r.isSome then 1 else 0)) := by
+  unfold logMacro objLog
+  cases h : objEnabled t o l with
+  | error f => rfl
+  | ok b => cases b <;> rfl
+
+/-! ## The rest of the public API -/
+
+/-- `level_from_string` inverts `level_to_string` … -/
+theorem levelFromString_levelName (l : Nat) (h : l < levelCount) : levelFromString (levelName l) = some l :=
+  levelFromString_levelName' l h
+
+/-- … and accepts nothing but the six names -/
+theorem levelFromString_some (s : String) (l : Nat) (h : levelFromString s = some l) : l < levelCount ∧ levelName l = s :=
+  levelFromString_some' s l h
+
+/-- `level_to_string` is defined exactly on the enumerators -/
+theorem levelToString_ok (l : Nat) : (∃ s, levelToString l = .ok s) ↔ l < levelCount := by
+  unfold levelToString
+  by_cases h : l < levelCount <;> simp [h]
+
+/-- `operator>>`: on failure the variable keeps its value; on success it holds the level named by the first word -/
+theorem levelInput_spec (old : Nat) (inp : List Char) :
+    let r := levelInput old inp
+    (r.2.1 = true → r.1 = old) ∧
+    (r.2.1 = false → levelFromString (String.ofList ((inp.dropWhile isSpace).takeWhile (fun c => !isSpace c))) = some r.1) := by
+  simp only [levelInput]
+  split
+  · simp
+  · split <;> simp_all
+
+/-- a location built by `location(name)`, `/=` and `/` is the list of its names in order -/
+theorem location_build (n : String) (names : List String) : names.foldl locPush (locOfName n) = n :: names := by
+  have : ∀ (l : Loc), names.foldl locPush l = l ++ names := by
+    induction names with
+    | nil => simp
+    | cons x xs ih => intro l; simp [List.foldl_cons, ih, locPush]
+  simpa [locOfName] using this [n]
+
+/-- what `location::string` computes on the pinned tree: each further entry goes IN FRONT, followed by `::`
+    (documented is `::root::child`; see notes/C19.md, DEFECT CANDIDATE) -/
+theorem locString_push (l : Loc) (n : String) : locString (locPush l n) = n ++ "::" ++ locString l := by
+  simp [locString, locPush, List.foldl_append]
+
+theorem locString_nil : locString [] = "" := rfl
+
+/-- `format::chain`: nothing is the unit, two functions compose parent ∘ child -/
+theorem chain_spec (a b : OptFn) (s : String) :
+    chain none b = b ∧ chain a none = a ∧ (chain a b).isSome = (a.isSome || b.isSome) ∧
+    ((chain a b).getD id) s = (a.getD id) ((b.getD id) s) := by
+  refine ⟨rfl, by cases a <;> rfl, chain_isSome a b, ?_⟩
+  cases a <;> cases b <;> rfl
+
+/-- chaining is associative (as a function applied to a text) -/
+theorem chain_assoc (a b c : OptFn) (s : String) :
+    ((chain (chain a b) c).getD id) s = ((chain a (chain b c)).getD id) s := by
+  cases a <;> cases b <;> cases c <;> rfl
+
+/-- `level_stream::log` / `object::level_sink(l).log`: additional formatter outside, the stream's own inside -/
+theorem sinkLog_spec (streams : Nat → OptFn) (l : Nat) (add : OptFn) (msg : String) :
+    sinkLog streams l add msg = (add.getD id) (((streams l).getD id) msg) := by
+  unfold sinkLog streamLog
+  cases add <;> cases streams l <;> rfl
+
+/-- `level_stream::sink` redirects the text and keeps the formatter -/
+theorem levelStream_sink (s : LevelStream) (d : Nat) (add : OptFn) (msg : String) :
+    (s.sink d).log add msg = (d, (s.log add msg).2) ∧ (s.sink d).fmt = s.fmt := ⟨rfl, rfl⟩
+
+/-- `format::default_level`, `time_stamp`, `prefix`, `inserter` as texts -/
+theorem formatter_texts (l : Nat) (now p pre suf t : String) :
+    defaultLevel l t = levelName l ++ ": " ++ t ++ "\n" ∧ timeStamp now t = now ++ ": " ++ t ∧
+    prefixFn p t = p ++ ": " ++ t ∧ inserter pre suf t = pre ++ t ++ suf := ⟨rfl, rfl, rfl, rfl⟩
+
+/-- `default_level_streams`: verbose … warning go to `clog`, error and fatal to `cerr`, each with `default_level` -/
+theorem defaultLevelStreams_spec (l : Nat) (t : String) :
+    ((defaultLevelStreams l).1 = true ↔ 4 ≤ l) ∧ ((defaultLevelStreams l).2.getD id) t = levelName l ++ ": " ++ t ++ "\n" := by
+  simp [defaultLevelStreams, defaultStream, defaultLevel, inserter]
+
+/-- `out << p₁ << … << pₙ` is the concatenation -/
+theorem outParts_append (a b : List String) : outParts (a ++ b) = outParts a ++ outParts b := by
+  unfold outParts
+  rw [List.foldl_append]
+  generalize a.foldl (· ++ ·) "" = x
+  induction b generalizing x with
+  | nil => simp
+  | cons y ys ih => simp only [List.foldl_cons]; rw [ih (x ++ y), ih ("" ++ y)]; simp [String.append_assoc]
+
+-- the seeded regression C19-1 (early return when the node already has the requested level): the third call must
+-- still push the level down
+example : ctxGet (run (some 3) ([.set ["p"] (some 1), .set ["p", "q"] (some 4)] ++ [.set ["p"] (some 1)])).tree ["p", "q"] = some 1 := by
+  apply set_overrides_subtree
+  · refine ⟨by intro v h; cases h; decide, ?_⟩
+    intro op hop
+    simp at hop
+    rcases hop with rfl | rfl <;> simp [Op.Valid, Level.Valid, levelCount]
+  · simp [Level.Valid, levelCount]
+  · decide
+example : levelFromString "warning" = some 3 ∧ levelFromString "Warning" = none ∧ levelFromString "" = none := by decide
+example : locString ["root", "child"] = "child::root::" := by decide
+example : levelInput 5 "  debug x".toList = (1, false, " x".toList) := by decide
+
+
 /-! ## Concurrent part: every interleaving of the transcribed step system
 
 `Reachable root s`: `s` is reachable from a fresh context by any interleaving of any number of threads
@@ -263,6 +411,64 @@ theorem observed_level_justified (root : Level) (hr : Level.Valid root) {s s' : 
   | createFind l hi => simp at ha
   | unlock after hi hna => simp at ha
   | format l hi => simp at ha
+
+/-- **operations that do not overlap a `set` see exactly the sequential result**: an atomic level load made while no
+thread is inside the store loop of a `set` (in particular every load of a schedule that runs the calls one after the
+other) returns precisely the specified level for the completed `set`s. -/
+theorem observed_level_exact_when_no_set_in_progress (root : Level) (hr : Level.Valid root) {s s' : Sys} {i : Tid}
+    {acc : List Access} (h : Reachable root s) (st : Step s i acc s') (p : Loc) (x : Nat)
+    (ha : Access.atomicLoad p x ∈ acc) (hq : ∀ j l v todo, s.ph j ≠ .setStore l v todo) :
+    x = convertLevel (levelOf root s.done p) := by
+  rcases observed_level_justified root hr h st p x ha with h1 | ⟨j, l, v, todo, hj, _⟩
+  · exact h1
+  · exact absurd hj (hq j l v todo)
+
+/-- **a node created by a constructor starts with the specified level** of its location (it inherits, under the lock,
+from a parent that holds the specified level): right after `find_location` / `find_child` the object's node exists
+and holds `levelOf` of the completed `set`s. -/
+theorem created_node_has_linearised_level (root : Level) (hr : Level.Valid root) {s s' : Sys} {i : Tid} {acc : List Access}
+    (h : Reachable root s) (st : Step s i acc s') (l : Loc) (hi : s.ph i = .createFind l) :
+    lvlAt s'.tree l = some (convertLevel (levelOf root s'.done l)) := by
+  have hd' := DInv.of_reachable hr (Reachable.step h st)
+  cases st with
+  | createFind l' hi' =>
+    rw [hi] at hi'
+    injection hi' with hl
+    subst hl
+    have hn : NoStore { s with tree := ensure s.tree l, ph := upd s.ph i (.unlock (.format l)) } :=
+      hd'.noStore_of_holder (i := i) (by simp [upd, Phase.holds]) (by simp [upd])
+    have hinv := hd'.quiet hn
+    have hex : (lvlAt (ensure s.tree l) l).isSome = true := hd'.fmtp i l (Or.inr (by simp [upd]))
+    cases hx : lvlAt (ensure s.tree l) l with
+    | none => simp [hx] at hex
+    | some x => simp only; rw [hinv.level l x hx]
+  | call c hi' hv => rw [hi] at hi'; cases hi'
+  | acquire c hi' hfree => rw [hi] at hi'; cases hi'
+  | setFind l' v hi' => rw [hi] at hi'; cases hi'
+  | setStore l' v q todo hi' => rw [hi] at hi'; cases hi'
+  | setDone l' v hi' => rw [hi] at hi'; cases hi'
+  | getRead l' hi' => rw [hi] at hi'; cases hi'
+  | unlock after hi' hna => rw [hi] at hi'; cases hi'
+  | format l' hi' => rw [hi] at hi'; cases hi'
+  | load p' val hi' ho hl => rw [hi] at hi'; cases hi'
+
+/-- **a location without a node** ("no such location"): `context::get` creates nothing and answers with the level
+stored in the deepest node that exists on the way — which, by `get_eq_latest_prefix`, is the specified level. -/
+theorem get_reads_deepest_existing_node (t : Tree) (loc : Loc) :
+    (deepest t loc).isPrefixOf loc = true ∧ lvlAt t (deepest t loc) = some (getInt t loc) ∧
+    ((lvlAt t loc).isSome = true → deepest t loc = loc) := by
+  refine ⟨deepest_isPrefix t loc, lvlAt_deepest t loc, ?_⟩
+  induction loc generalizing t with
+  | nil => intro _; rfl
+  | cons x xs ih =>
+    intro h
+    unfold deepest
+    rw [lvlAt_cons] at h
+    cases hc : findChild t.kids x with
+    | none => simp [hc] at h
+    | some c =>
+      simp only [hc] at h ⊢
+      rw [ih c (by simpa using h)]
 
 /-- in a state where no `set` is in its store loop (in particular whenever the mutex is free), the tree is
 exactly what the sequential specification says for the linearised history -/
